@@ -116,6 +116,8 @@ func H04() {
 	for _, w := range words {
 		vAssert(w != "RECYCLED", "the word list aliases the slice passed to NewWordList: it changed when the caller reused its slice")
 	}
+	// words are drawn from the normalised list: one copy of each distinct word, capitalised twins removed
+	vAssert(h10SameSet(words, h10Kept(input)), "the list words are drawn from is not the normalised input (a duplicate or a capitalised twin is kept, or a word is lost)")
 	L := r.Length
 	size := len(words)
 	// optionally, an earlier Generate with another scheme on the same list
